@@ -1,0 +1,30 @@
+// Verification hooks. Only compiled with the `verif_hooks` cargo feature,
+// which nothing in this workspace enables.
+
+//! Verification hooks: re-exports of internal modules for external harnesses
+//! and a process-global callback announced before wallet-lock acquisitions.
+
+pub use crate::internal::{keys, scan, selection, tx, updater};
+
+use std::sync::{Arc, RwLock};
+
+/// Callback type: (file, line) of the `wallet_lock!` call site
+pub type LockHook = Arc<dyn Fn(&'static str, u32) + Send + Sync>;
+
+lazy_static! {
+	static ref LOCK_HOOK: RwLock<Option<LockHook>> = RwLock::new(None);
+}
+
+/// Install (or clear) the callback invoked immediately before `wallet_lock!`
+/// acquires the wallet mutex
+pub fn set_lock_hook(h: Option<LockHook>) {
+	*LOCK_HOOK.write().unwrap() = h;
+}
+
+/// Called by `wallet_lock!` right before it locks the wallet instance
+pub fn before_wallet_lock(file: &'static str, line: u32) {
+	let h = LOCK_HOOK.read().unwrap().clone();
+	if let Some(h) = h {
+		h(file, line);
+	}
+}
